@@ -238,11 +238,10 @@ Proof.
   - pose proof (three_sound _ Q3_three cf s Hk Hr) as H. unfold Q3b in H. rewrite He in H. cbn [negb orb andb] in H.
     destruct (h_late s); [discriminate | reflexivity].
   - intro Hc. pose proof (three_sound _ Q4_three cf s Hk Hr) as H. unfold Q4b in H.
-    rewrite Hc, He in H. cbn [negb orb andb] in H. repeat rewrite andb_true_iff in H. destruct H as (H1 & H2 & H3 & _).
-    repeat split.
-    + destruct (step cf s TLaunch); [discriminate | reflexivity].
-    + destruct (step cf s TRelaunch); [discriminate | reflexivity].
-    + destruct (step cf s GEnter); [discriminate | reflexivity].
+    rewrite Hc, He in H. cbn [negb orb andb] in H. rewrite forallb_forall in H.
+    assert (A : forall l, In l [TLaunch; TRelaunch; GEnter] -> step cf s l = None).
+    { intros l Hl. specialize (H l Hl). destruct (step cf s l); [discriminate | reflexivity]. }
+    repeat split; apply A; simpl; tauto.
 Qed.
 
 (* the ghost flag is set only by the one race: for a sticky service it is irrelevant, otherwise it
@@ -265,14 +264,16 @@ Proof.
 Qed.
 
 (* ------------------------------------------------------------------ panic containment *)
-Definition Rb (cf : config) (s : state) : bool :=
-  is_once (knd cf) || negb (match s_c s with CIdle => recovering s | _ => false end) ||
-  (negb (stable cf s) &&
-   forallb (fun l => match step cf s l with
-                     | Some s' => if is_ecall l then true
-                                  else if is_env l then recovering s' && (rmu s' =? rmu s)
-                                  else g_active (s_g s') || (recovering s' && (rmu s' <? rmu s))
-                     | None => true end) all_labels).
+Definition R_hyp (cf : config) (s : state) : bool :=
+  negb (is_once (knd cf)) && (match s_c s with CIdle => true | _ => false end) && recovering s.
+Definition R_con (cf : config) (s : state) : bool :=
+  negb (stable cf s) &&
+  forallb (fun l => match step cf s l with
+                    | Some s' => if is_ecall l then true
+                                 else if is_env l then recovering s' && (rmu s' =? rmu s)
+                                 else g_active (s_g s') || (recovering s' && (rmu s' <? rmu s))
+                    | None => true end) all_labels.
+Definition Rb (cf : config) (s : state) : bool := if R_hyp cf s then R_con cf s else true.
 Definition Rpb (cf : config) (s : state) : bool :=
   match step cf s GPanic with Some s' => recovering s' && (rmu s' <=? 7) | None => true end.
 Definition Lb (cf : config) (s : state) : bool := negb (h_lost s).
@@ -290,7 +291,7 @@ Proof.
   destruct (filter (fun l => negb (is_env l)) (filter (fun l => is_some (step cf s l)) all_labels)) as [|l r] eqn:E; [discriminate|].
   assert (Hin : In l (l :: r)) by (left; reflexivity). rewrite <- E in Hin.
   apply filter_In in Hin as [Hin He]. apply filter_In in Hin as [_ Hs].
-  destruct (step cf s l) as [s'|]; [|discriminate]. exists l, s'. split; [|reflexivity].
+  destruct (step cf s l) as [s'|] eqn:E2; [|discriminate]. exists l, s'. split; [|exact E2].
   destruct (is_env l); [discriminate | reflexivity].
 Qed.
 
@@ -313,8 +314,9 @@ Lemma recovery_progress cf s :
      else g_active (s_g s') = true \/ (recovering s' = true /\ rmu s' < rmu s)).
 Proof.
   intros Hk Hn Hr Hc Hrec. pose proof (six_sound _ R_six cf s Hk Hr) as H. unfold Rb in H.
-  rewrite Hc, Hrec in H. assert (Ho : is_once (knd cf) = false) by (destruct (knd cf); [congruence | reflexivity | reflexivity]).
-  rewrite Ho in H. cbn [negb orb andb] in H. apply andb_true_iff in H as [H1 H2]. split.
+  assert (Hh : R_hyp cf s = true).
+  { unfold R_hyp. rewrite Hc, Hrec. destruct (knd cf); [congruence | reflexivity | reflexivity]. }
+  rewrite Hh in H. unfold R_con in H. apply andb_true_iff in H as [H1 H2]. split.
   - apply stable_false_enabled. destruct (stable cf s); [discriminate | reflexivity].
   - intros l s' Hs Hne. pose proof (all_steps cf s _ H2 l s' Hs) as H3. cbn beta in H3.
     assert (He : is_ecall l = false) by (destruct l; try reflexivity; congruence).
@@ -353,6 +355,8 @@ Definition w_cooldown : list label :=
 (* (c) old code: Close races the service's own return *)
 Definition w_races_return : list label :=
   [EStart; TBegin; TLaunch; TSetRunL; GEnter; ECall; CReadL; CSvcL; GStop; GPut; CWaitL; CSigL; TRecv].
+Definition w_races_return_fresh : list label :=
+  [EStart; TBegin; TLaunch; TSetRunL; GEnter; ECall; CReadL; CSvcL; GStop; GPut; CSigL; TRecv].
 (* (a') repaired code: service.Close() before service.Start was entered *)
 Definition w_before_service_start : list label :=
   [EStart; TBegin; TCheck; TLaunch; ECall; CMarkL; CReadL; CSvcL; CSigL; TExit; GEnter].
@@ -360,36 +364,46 @@ Definition w_before_service_start : list label :=
 Definition w_restart_once : list label :=
   [EStart; TBegin; TCheck; TLaunch; GEnter; EPanic; GPanic; GPut; TRecv; TTimer; TReCheck; TRelaunch; GEnter; GPut; TRecv].
 
+Definition final (cf : config) (w : list label) : state :=
+  match run cf init w with Some s => s | None => init end.
+
 Lemma refute_early_close k :
   exists s, run (cfg_old k) init w_early_close = Some s /\ leak_after_close (cfg_old k) s = true /\
             s_c s = CRet CNotRunning /\ g_active (s_g s) = true.
-Proof. destruct k; eexists; (split; [vm_compute; reflexivity | vm_compute; repeat split]). Qed.
+Proof. exists (final (cfg_old k) w_early_close). destruct k; vm_compute; repeat split. Qed.
 
 Lemma refute_cooldown :
   exists s, run (cfg_old KFresh) init w_cooldown = Some s /\ leak_after_close (cfg_old KFresh) s = true /\
             g_active (s_g s) = true /\ h_late s = true /\ is_tret (s_t s) = true.
-Proof. eexists; (split; [vm_compute; reflexivity | vm_compute; repeat split]). Qed.
+Proof. exists (final (cfg_old KFresh) w_cooldown). vm_compute; repeat split. Qed.
 
-Lemma refute_races_return k :
-  exists s, run (cfg_old k) init w_races_return = Some s /\ leak_after_close (cfg_old k) s = true /\
-            s_c s = CRet CNil /\ s_t s = TSel /\ s_buf s = None /\ s_running s = true /\ g_live (s_g s) = false.
-Proof. destruct k; eexists; (split; [vm_compute; reflexivity | vm_compute; repeat split]). Qed.
+Definition races_return_shape (cf : config) (s : state) : Prop :=
+  leak_after_close cf s = true /\ s_c s = CRet CNil /\ s_t s = TSel /\ s_buf s = None /\
+  s_running s = true /\ g_live (s_g s) = false.
+Lemma refute_races_return :
+  (exists s, run (cfg_old KOnce) init w_races_return = Some s /\ races_return_shape (cfg_old KOnce) s) /\
+  (exists s, run (cfg_old KFresh) init w_races_return_fresh = Some s /\ races_return_shape (cfg_old KFresh) s).
+Proof.
+  split.
+  - exists (final (cfg_old KOnce) w_races_return). vm_compute; repeat split.
+  - exists (final (cfg_old KFresh) w_races_return_fresh). vm_compute; repeat split.
+Qed.
 
 Lemma refute_before_service_start k :
   k <> KSticky ->
   exists s, run (cfg_new k) init w_before_service_start = Some s /\ leak_after_close (cfg_new k) s = true /\
             g_active (s_g s) = true /\ h_early s = true /\ is_tret (s_t s) = true.
-Proof. destruct k; intro H; try congruence; eexists; (split; [vm_compute; reflexivity | vm_compute; repeat split]). Qed.
+Proof. intro H. exists (final (cfg_new k) w_before_service_start). destruct k; try congruence; vm_compute; repeat split. Qed.
 
 Lemma refute_restart_once :
   exists s, run (cfg_new KOnce) init w_restart_once = Some s /\ s_c s = CIdle /\ stable (cfg_new KOnce) s = true /\
             g_live (s_g s) = false /\ n_starts s = 2.
-Proof. eexists; (split; [vm_compute; reflexivity | vm_compute; repeat split]). Qed.
+Proof. exists (final (cfg_new KOnce) w_restart_once). vm_compute; repeat split. Qed.
 
 (* the same schedules are harmless in the repaired model *)
 Lemma repaired_runs_blocked :
   run (cfg_new KFresh) init w_early_close = None /\ run (cfg_new KFresh) init w_cooldown = None /\
-  run (cfg_new KOnce) init w_races_return = None.
+  run (cfg_new KOnce) init w_races_return = None /\ run (cfg_new KFresh) init w_races_return_fresh = None.
 Proof. vm_compute. repeat split. Qed.
 
 (* ------------------------------------------------------------------ checker soundness *)
